@@ -15,7 +15,7 @@ PROPS = {
                       "oneTBB join seam; update_mmap_rayon (unit io) == update_reader on a freshly opened file",
         "units": {"quick": [v("tree"), v("tree", "A", join_order="rl"), v("hasher"), v("spec_lemmas"), v("io"),
                             c("blake3_hasher_update_tbb"), c("blake3_compress_subtree_wide_tbb")],
-                  "thorough": [v("hasher", "A", join_order="rl")]},
+                  "thorough": [v("hasher", "A", join_order="rl"), s("C08")]},
         "explanation": "update_rayon == update_with_join::<RayonJoin>; both are instances of the generic function proved once "
                        "for all J. Determinism under every schedule follows from: results are functions of the inputs "
                        "(postcondition == spec), frames are disjoint, inputs are immutable.",
